@@ -628,6 +628,24 @@ func checkEntryRefs(c *Check, d *Dispatch) {
 					}
 				}
 				inDispatch := fn == d.Fn
+				// a conversion to a named function type that is only returned
+				// stands for the return (the selector's result type is named)
+				if ct, isCT := in.(*ssa.ChangeType); isCT && ct.Referrers() != nil {
+					var ret ssa.Instruction
+					only := true
+					for _, u := range *ct.Referrers() {
+						switch u.(type) {
+						case *ssa.Return:
+							ret = u
+						case *ssa.DebugRef:
+						default:
+							only = false
+						}
+					}
+					if only && ret != nil {
+						in = ret
+					}
+				}
 				if !inDispatch {
 					// the nested dispatcher returns it
 					if _, isRet := in.(*ssa.Return); isRet {
